@@ -14,6 +14,9 @@ meta = json.load(open(sd + "/meta.json"))
 if not conf.get("confirmed"):
     print(sid, "NOT CONFIRMED", conf.get("error"), conf.get("suite_failures_with_change")); sys.exit(1)
 dst = os.path.join(V, "seeded", sid)
+old_hist = None
+if os.path.exists(dst + "/meta.json"):
+    old_hist = json.load(open(dst + "/meta.json")).get("history")
 shutil.rmtree(dst, ignore_errors=True); os.makedirs(dst)
 shutil.copy(sd + "/patch.diff", dst)
 if os.path.exists(sd + "/demo_test.go"): shutil.copy(sd + "/demo_test.go", dst + "/demo_test.go.txt")
@@ -34,5 +37,6 @@ out = dict(
     own_property_check_reports_it=meta.get("property") in props,
     first_reports=[l[:240] for l in fired[:4]],
     evaluated_with="tools/eval_seed.sh: git -C /repo apply patch.diff; lowcheck -prop all; git -C /repo checkout -- .")
+if old_hist: out["history"] = old_hist
 json.dump(out, open(dst + "/meta.json", "w"), indent=1)
 print(sid, "stored; own check fires:", out["own_property_check_reports_it"], "checks:", props, "rules:", rules)
